@@ -340,9 +340,16 @@ class Struct(metaclass=MetaStruct):
                 self._offset, value._buffer, value._offset, value._size
             )
         else:
-            for field in self._fields:
-                if field.name in value:
-                    field.__set__(self, value[field.name])
+            # all or nothing: if one of the fields refuses its new value the
+            # fields already updated get their previous content back
+            backup = self._buffer.to_bytearray(self._offset, self._size)
+            try:
+                for field in self._fields:
+                    if field.name in value:
+                        field.__set__(self, value[field.name])
+            except Exception:
+                self._buffer.update_from_buffer(self._offset, backup)
+                raise
 
     def __init__(
         self, *args, _context=None, _buffer=None, _offset=None, **kwargs
